@@ -36,7 +36,7 @@
 EXTENDS Integers, Sequences, FiniteSets, TLC, Json
 
 TraceLog == ndJsonDeserialize("trace.ndjson")
-MaxIdx == 4
+MaxIdx == 6
 Peers == 1..4
 K3 == {"Prevote", "Precommit", "Cert"}
 
